@@ -87,6 +87,49 @@ R3 = {
  "C20-f": ("GPS->UTC uses a lazily built package-level table without synchronisation", "the first conversions of a process running concurrently"),
 }
 R2.update(R3)
+R4 = {
+ "C01-g": ("isUplink() rewritten as a list of downlink MTypes that omits ConfirmedDataDown", "ConfirmedDataDown frame whose FOpts / port-0 payload are decoded as MAC commands (parsed with the uplink table)"),
+ "C01-h": ("PHYPayload.UnmarshalText also accepts hex and tries it first", "a frame whose base64 text consists of hex digits only (short proprietary frames)"),
+ "C02-g": ("uplink B0/B1 built by a helper that writes fCnt>>16 into both upper counter bytes", "uplink with FCnt bits 24..31 != bits 16..23"),
+ "C02-h": ("MType/direction validation added to both data-MIC functions; the downlink list names ConfirmedDataUp", "every ConfirmedDataDown frame: Set errors, Validate refuses the specification's MIC"),
+ "C03-g": ("function-level EncryptFOpts writes only 16 bits of FCnt into the A block", "FOpts encryption with FCnt >= 65536"),
+ "C03-h": ("EncryptFRMPayload pre-generates 242/16 = 15 key-stream blocks and XORs the shorter length", "payload lengths 241..255: bytes from index 240 come back zero"),
+ "C04-g": ("EncryptJoinAcceptPayload switched to a CBC decrypter with zero IV", "every 28-byte (CFList) join-accept: second ciphertext block differs from ECB"),
+ "C04-h": ("EncryptJoinAcceptPayload refuses an all-zero MIC as 'not set'", "a join-accept whose MIC is 00000000"),
+ "C05-g": ("downlink B0 built by a shared helper called with ConfFCnt 0", "1.1 downlink with ACK and non-zero ConfFCnt"),
+ "C05-h": ("FHDR decoder clears ADRACKReq (bit 6) on downlinks as RFU", "a downlink whose FCtrl bit 6 is flipped in transit still validates"),
+ "C06-g": ("DLChannelReq decoder takes over the 2.4 GHz 200 Hz stepping of NewChannelReq, the encoder does not", "DLChannelReq frequency codes >= 12000000"),
+ "C06-h": ("JoinAcceptPayload decoder zeroes the CFList type octet when OptNeg is clear ('1.0.x')", "28-byte join-accept with OptNeg=0 and CFListType=1"),
+ "C07-g": ("DutyCycleReq decoder masks MaxDCycle to 4 bits; the encoder still accepts 255", "MaxDCycle = 255"),
+ "C07-h": ("BeaconTimingReq/Ans (CID 0x12) added; the 3-byte answer registered in the uplink table", "an uplink stream containing CID 0x12 followed by other commands"),
+ "C08-g": ("JoinRequestPayload decoder accepts more than 18 bytes", "JoinRequest frames longer than 23 bytes: accepted, re-encoding drops the surplus"),
+ "C08-h": ("MACPayload decoder normalises FPort=0 without payload to FPort absent", "13-byte data frames ending in FPort 00: re-encoding is a byte shorter"),
+ "C09-g": ("EUI64.UnmarshalText decodes with hex.Decode into a fixed [8]byte", "text with 9 or more hex byte pairs: index panic, also through json.Unmarshal"),
+ "C09-h": ("PHYPayload.UnmarshalText normalises URL-safe base64 in place", "text containing '-' or '_': the caller's buffer is rewritten"),
+ "C10-g": ("EncryptFOpts pads its input with append (no capacity guard) to share a key-stream helper", "input that is a sub-slice with spare capacity: bytes behind it are overwritten"),
+ "C10-h": ("package-level map of AES ciphers with an unlocked fast-path read", "two goroutines encrypting with keys not yet cached"),
+ "C11-g": ("DevAddr.UnmarshalBinary accepts over-long input (len < 4 guard)", "binary input longer than 4 bytes"),
+ "C11-h": ("SetAddrPrefix fast path for NetID types 0/1 uses the raw last NetID byte", "type 0/1 NetIDs whose last byte is >= 64"),
+ "C12-g": ("AS923 RX1 floor moved into a constructor field; one of four branches sets 0 instead of 2", "AS923* with repeater=false and dwell-time 400 ms"),
+ "C12-h": ("RX1 data-rate clamped to the DR range of the enabled downlink channels", "uplink DR6/DR7 on bands whose default downlink channels cover DR0-5"),
+ "C13-g": ("GetDownlinkChannel bound check merged into >= len-1", "the last downlink channel of every band is not handed out"),
+ "C13-h": ("AS923/AU915 with dwell time drop the data-rates whose payload is 0 from the data-rate table only", "AS923*, AU915 with dwell-time 400 ms: channel ranges and enabled data-rates refer to undefined DR0/DR1"),
+ "C14-g": ("Redundancy.MarshalBinary refuses ChMaskCntl 7 as RFU", "US915/AU915 plans that use ChMaskCntl=7 are not encodable"),
+ "C14-h": ("'already in sync' fast path compares uint64 bitmaps of the channel sets", "network and device differing only in channels >= 64"),
+ "C15-g": ("NewChannelReq decoder multiplies by 100 before testing for the 2.4 GHz range", "every 2.4 GHz frequency decodes to half its value"),
+ "C15-h": ("AddChannel updates an existing channel found by (frequency, minDR) instead of appending", "AddChannel of a standard channel's frequency with minDR inside its range rewrites the standard channel"),
+ "C16-g": ("EncryptJoinAcceptPayload decrypts with one block.Decrypt call", "join-accepts with CFList: second block all-zero"),
+ "C16-h": ("join-server lower-cases / strips 0x from SenderID and mirrors the normalised value", "a SenderID written in upper-case hex"),
+ "C17-g": ("HRStartAnsPayload.NwkSEncKey carries the JSON tag of NwkSKey", "HRStartAns with NwkSKey / NwkSEncKey set: both dropped by encoding/json"),
+ "C17-h": ("Percentage.UnmarshalJSON guesses the unit (>= 1 means whole percents)", "Percentage 100 reads back as 1"),
+ "C18-g": ("McClassBSessionAns hasError() drops DRError", "McClassBSessionAns whose only status flag is DRError"),
+ "C18-h": ("DLFrequency range check >= MaxDLFrequency in both session requests", "DLFrequency 1677721500 Hz (code 0xffffff)"),
+ "C19-g": ("matrixLine takes uint16 arguments; 1+1001*n wraps for n >= 66", "redundancy >= 66"),
+ "C19-h": ("concurrent fast path for large blocks leaves the redundancy%4 remainder rows zero", "fragments*redundancy*size >= 65536 with redundancy not a multiple of 4"),
+ "C20-g": ("UTC->GPS compares whole Unix seconds, GPS->UTC nanoseconds", "instants in the second before a leap second with a sub-second part"),
+ "C20-h": ("CalculateLoRaAirtime forces low-data-rate optimisation when the symbol time exceeds 16 ms", "SF11/SF12 at 125 kHz (SF12 at 250 kHz) with LDRO off"),
+}
+R2.update(R4)
 res = {}
 p = os.path.join(V, "RESULTS.tsv")
 if os.path.exists(p):
@@ -106,7 +149,7 @@ for seed, (change, needs) in R2.items():
     if not os.path.isdir(d):
         continue
     meta = {"property": seed.split("-")[0], "change": change, "needs_to_manifest": needs,
-            "written_by": ("independent sub-agent (third round: one small value-level change in a rarely exercised corner, one free choice) given only the property text and a scratch worktree of /repo" if seed[-1] in "ef" else "independent sub-agent (second round: asked for changes that need history, aliasing, interleavings or rare values) given only the property text and a scratch worktree of /repo"),
+            "written_by": ("independent sub-agent (fourth round: a sibling inconsistency, a new code path with a flaw) given only the property text and a scratch worktree of /repo" if seed[-1] in "gh" else "independent sub-agent (third round: one small value-level change in a rarely exercised corner, one free choice) given only the property text and a scratch worktree of /repo" if seed[-1] in "ef" else "independent sub-agent (second round: asked for changes that need history, aliasing, interleavings or rare values) given only the property text and a scratch worktree of /repo"),
             "confirmed": {"applies_to": "/repo HEAD at the time of collection", "suite": "bin/baseline.sh with the patch applied: 235/235 stable tests pass",
                           "demo": "bin/confirm_seed.sh %s: demo_test.go fails with the patch and passes without" % seed},
             "caught_by": caught(seed)}
